@@ -108,21 +108,25 @@ Fixpoint exec_honest (fuel : nat) (uniq hashes : bool) (ch : chain) (p : prog) (
   end.
 
 (* ---------- several tasks, interleaved at op granularity ---------- *)
-Record tstate := TState { ts_cfg : tcfg; ts_prog : option prog; ts_cs : cstate }.
+(* [ts_hist]: ghost -- the operations of the current Converge call so far,
+   newest first, each with the reply it got and the committed database AT THE
+   MOMENT it was issued *)
+Record tstate := TState { ts_cfg : tcfg; ts_prog : option prog; ts_cs : cstate;
+                          ts_hist : list (io * reply * db) }.
 Record sys := Sys { s_db : db; s_tasks : list tstate }.
 
 Definition sys_init (cfgs : list tcfg) (d : db) : sys :=
-  Sys d (map (fun c => TState c None None) cfgs).
+  Sys d (map (fun c => TState c None None []) cfgs).
 
 (* what task [tid] does when it is scheduled with answer [a]:
    idle -> calls Converge; returned -> becomes idle; otherwise its next op *)
 Definition task_move (d : db) (a : ans) (t : tstate) : db * tstate :=
   match ts_prog t with
-  | None => (d, TState (ts_cfg t) (Some (converge (ts_cfg t))) (ts_cs t))
-  | Some (Ret _) => (d, TState (ts_cfg t) None (ts_cs t))
+  | None => (d, TState (ts_cfg t) (Some (converge (ts_cfg t))) (ts_cs t) [])
+  | Some (Ret _) => (d, TState (ts_cfg t) None (ts_cs t) [])
   | Some (Op i k) =>
       let '(d', cs', r) := step_op (t_uniq (ts_cfg t)) d (ts_cs t) i a in
-      (d', TState (ts_cfg t) (Some (k r)) cs')
+      (d', TState (ts_cfg t) (Some (k r)) cs' ((i, r, d) :: ts_hist t))
   end.
 
 Fixpoint move_task (tid : N) (a : ans) (d : db) (ts : list tstate) : db * list tstate :=
@@ -134,7 +138,7 @@ Fixpoint move_task (tid : N) (a : ans) (d : db) (ts : list tstate) : db * list t
   end.
 
 Definition crash_all (ts : list tstate) : list tstate :=
-  map (fun t => TState (ts_cfg t) None None) ts.
+  map (fun t => TState (ts_cfg t) None None []) ts.
 
 Definition sys_step (s : sys) (m : N * ans) : sys :=
   match snd m with
